@@ -82,14 +82,12 @@ ObjCand(T, env, f) ==
       vary == UNION { UNION { { VObj(SetAt(b, i, P(T.ps[i].key, c))) : c \in Take(Cand(T.ps[i].ty, env, f), 8) }
                               \cup { VObj(DropAt(b, i)) }
                             : i \in 1..n } : b \in base }
-      extras == UNION { { VObj(b \o <<P("zz", VNum("1"))>>),
-                          VObj(b \o <<P("zz", VUndef)>>),
-                          VObj(<<P("zz", VStr("a"))>> \o b),
-                          VObj(b \o <<P("__proto__", VStr("a"))>>),
-                          VObj(b \o <<P("constructor", VNum("1"))>>),
-                          VObj(b \o <<P("toString", VStr("a"))>>),
-                          VObjC("null", b), VObjC("inst", b),
-                          VObj(Reverse(b)) }
+      \* an extra key is only added when the object does not have it yet (a value term has every key once)
+      Plus(b, k, x) == IF \E j \in DOMAIN b : b[j].key = k THEN {} ELSE {VObj(b \o <<P(k, x)>>)}
+      extras == UNION { Plus(b, "zz", VNum("1")) \cup Plus(b, "zz", VUndef)
+                        \cup (IF \E j \in DOMAIN b : b[j].key = "zz" THEN {} ELSE {VObj(<<P("zz", VStr("a"))>> \o b)})
+                        \cup Plus(b, "__proto__", VStr("a")) \cup Plus(b, "constructor", VNum("1")) \cup Plus(b, "toString", VStr("a"))
+                        \cup { VObjC("null", b), VObjC("inst", b), VObj(Reverse(b)) }
                         \cup { VObj(b \o <<P(key, m)>>) : key \in ixKeys, m \in ixMem \cup ixBad }
                       : b \in base }
   IN { VObj(b) : b \in base } \cup vary \cup extras
